@@ -121,14 +121,17 @@ class Ref:
             v = self.eval(lhs, store, depth + 1)
             body, r = f["templates"][as_int(v) % len(f["templates"])]
             return self.eval(self.instantiate(v, body, r, env), store, depth + 1)
-        if k == "permapi":
-            # incr_mapi_: the user's per-key computation applied to every entry of the current input map
+        if k in ("permapi", "perfilter"):
+            # incr_mapi_ / incr_filter_mapi_: the user's per-key computation applied to every entry of the current
+            # input map; the filter flavour of the harness drops the keys whose result is divisible by 3
             _, inp, f = e
             m = self.eval(inp, store, depth + 1)
             out = {}
             body, r = f["templates"][0]
             for key in sorted(m):
-                out[key] = as_int(self.eval(self.instantiate(key, body, r, [[("const", m[key])]]), store, depth + 1))
+                v = as_int(self.eval(self.instantiate(key, body, r, [[("const", m[key])]]), store, depth + 1))
+                if k == "permapi" or v % 3 != 0:
+                    out[key] = v
             return out
         if k == "expert":
             ex = self.experts[e[1]]
@@ -213,8 +216,8 @@ class Ref:
             H.append(("var", len(self.store) - 1))
         elif k == "setmap":
             self.store[op[1]] = dict(op[2])
-        elif k == "permapi":
-            H.append(("permapi", H[op[1]], self.capture(op[3])))
+        elif k in ("permapi", "perfilter"):
+            H.append((k, H[op[1]], self.capture(op[3])))
         elif k == "expert":
             self.experts[len(H)] = dict(mode=op[1], static=[], ctrl=[], ok=True)
             H.append(("expert", len(H)))
